@@ -14,7 +14,7 @@ use lattices::set_union::SetUnion;
 use lattices::union_find::UnionFind;
 use lattices::{Conflict, DomPair, Lattice, Max, Min, Pair, Point, VecUnion, WithBot, WithTop};
 
-use crate::model::{M, NumKind, R, Sh, norm};
+use crate::model::{NumKind, R, Sh};
 
 pub trait Lat: Sized + Clone + 'static {
     /// Reads mutate the representation (union-find path compression through `Cell`): checks rebuild
@@ -27,9 +27,6 @@ pub trait Lat: Sized + Clone + 'static {
     /// `None` if this representation cannot hold the term (e.g. a singleton set for two elements).
     fn build(r: &R) -> Option<Self>;
     fn reveal(&self) -> R;
-    fn model(&self) -> M {
-        norm(&self.reveal())
-    }
 }
 
 // ---------------------------------------------------------------------------------------------
